@@ -2,6 +2,8 @@
 REG = "hippolyzer/lib/proxy/region.py"
 HEM = "hippolyzer/lib/proxy/http_event_manager.py"
 SESS = "hippolyzer/lib/proxy/sessions.py"
+CAPS = "hippolyzer/lib/proxy/caps.py"
+STATE = "hippolyzer/lib/client/state.py"
 
 _REQ_LOOP = '''            for known_cap_name, (known_cap_type, known_cap_url) in cap_data.region().caps.items():
                 if known_cap_type == CapType.PROXY_ONLY and known_cap_name in parsed_seed:
@@ -222,6 +224,38 @@ VARIANTS = [
      "new": 'seed_url = self.caps["Seed"][1]\n        seed_id = seed_url.encode("utf8")'},
     {"name": "P R6 wrapper host from a fresh random id", "file": REG, "expect": "silent",
      "old": 'seed_id = self.caps["Seed"][1].split("/")[-1].encode("utf8")', "new": 'seed_id = uuid.uuid4().bytes'},
+    # ---- round 3 mechanisms
+    {"name": "R2 add() leaves an already-stored value where it is", "file": REG, "expect": "C16.R2",
+     "old": "        vals = [value] + self.popall(key, [])\n",
+     "new": "        vals = self.popall(key, [])\n        if value in vals:\n            pass\n        else:\n            vals.insert(0, value)\n"},
+    {"name": "P R2 add() moves an already-stored value to the front", "file": REG, "expect": "silent",
+     "old": "        vals = [value] + self.popall(key, [])\n",
+     "new": "        vals = [value] + [old for old in self.popall(key, []) if old != value]\n"},
+    {"name": "R7 region re-attached only when it has a circuit", "file": CAPS, "expect": "C16.R7",
+     "old": "                if ser_cap_data.region_addr == str(region.circuit_addr):",
+     "new": "                if ser_cap_data.region_addr == str(region.circuit_addr) and region.circuit:"},
+    {"name": "R7 region matched against another attribute than serialize wrote", "file": CAPS, "expect": "C16.R7",
+     "old": "                if ser_cap_data.region_addr == str(region.circuit_addr):",
+     "new": "                if ser_cap_data.region_addr == str(region.handle):"},
+    {"name": "P R7 region selected with next() over a generator", "file": CAPS, "expect": "silent",
+     "old": "            for region in cap_session.regions:\n                if ser_cap_data.region_addr == str(region.circuit_addr):\n"
+            "                    cap_region = region\n",
+     "new": "            cap_region = next((candidate for candidate in cap_session.regions\n"
+            "                               if ser_cap_data.region_addr == str(candidate.circuit_addr)), None)\n"},
+    {"name": "R8 global cap stored when the login value is merely not None", "file": STATE, "expect": "C16.R8",
+     "old": "        if map_image_service:\n", "new": "        if map_image_service is not None:\n"},
+    {"name": "P R8 global cap guard spelled with isinstance", "file": STATE, "expect": "silent",
+     "old": "        if map_image_service:\n", "new": "        if isinstance(map_image_service, str) and map_image_service:\n"},
+    {"name": "R8 Seed cap stored without the emptiness guard", "file": REG, "expect": "C16.R8",
+     "old": "        if seed_cap:\n            self.caps[\"Seed\"] = (CapType.NORMAL, seed_cap)",
+     "new": "        if seed_cap is not None:\n            self.caps[\"Seed\"] = (CapType.NORMAL, seed_cap)"},
+    {"name": "R8 uploader URL registered on key presence only (reverts fix: an empty uploader URL resolves every request)",
+     "file": HEM, "expect": "C16.R8",
+     "old": '                if parsed.get("uploader"):', "new": '                if "uploader" in parsed:'},
+    {"name": "P R8 emptiness of registered URLs checked in register_cap itself", "expect": "silent", "edits": [
+        {"file": HEM, "old": '                if parsed.get("uploader"):', "new": '                if "uploader" in parsed:'},
+        {"file": REG, "old": "        self.caps.add(name, (cap_type, cap_url))\n        self._recalc_caps()",
+         "new": "        if not cap_url:\n            raise ValueError('empty cap URL')\n        self.caps.add(name, (cap_type, cap_url))\n        self._recalc_caps()"}]},
     # ---- documented limits
     {"name": "X only https URLs are tracked (validity filter is value-level)", "file": REG, "expect": "miss",
      "old": "cap_url.startswith('http')", "new": "cap_url.startswith('https')"},
